@@ -103,7 +103,7 @@ func (v wrapperValue) PropertyValue(Value) Value { return nilValue }
 func (v wrapperValue) Test() bool                { return !IsFalsy(v.value) }
 
 func (v wrapperValue) Int() int {
-	if n, ok := v.value.(int); ok {
+	if n, ok := AsInt(v.value); ok {
 		return n
 	}
 	panic(conversionError("", v.value, reflect.TypeOf(1)))
@@ -141,15 +141,18 @@ func (av arrayValue) IndexValue(iv Value) Value {
 	ar := reflect.ValueOf(av.value)
 	var n int
 	switch ix := iv.Interface().(type) {
-	case int:
-		n = ix
 	case float32:
 		// Ruby array indexing truncates floats
 		n = int(ix)
 	case float64:
 		n = int(ix)
 	default:
-		return nilValue
+		// an integer of any width
+		i, ok := AsInt(ix)
+		if !ok {
+			return nilValue
+		}
+		n = i
 	}
 	if n < 0 {
 		n += ar.Len()
